@@ -46,6 +46,10 @@ def run_vx(unit_list, units, workdir):
                     it['no_eager_iter'] = True
                 if e.opts.get('contains_as_loop'):
                     it['contains_as_loop'] = True
+                if e.opts.get('helpers'):
+                    it['helpers'] = True
+                if 'vec_receivers' in e.opts:
+                    it['vec_receivers'] = e.opts['vec_receivers'].split(',')
                 for k in ('into_as', 'slice_before', 'ret_name', 'slice_from', 'frag_name', 'frag_params', 'frag_ret'):
                     if k in e.opts:
                         it[k] = e.opts[k]
